@@ -503,7 +503,7 @@ def run(ctx):
                if not h or h[-1]["op"] != a or a in ("IngestMerge", "IngestDrain")]
         ctx.rng.shuffle(ext)
         if quick:
-            ext = ext[:260]
+            ext = ext[: (110 if pid == "C12" else 200)]
         cover = cover + ext
         ncover = len(cover)
         # behaviours with refused writes (FailWrite): they take the place of as many plain random behaviours
